@@ -21,19 +21,20 @@ CONSTANTS
   Pick = "{pick}"
   RegionLens = {{{regionlens}}}
   Kinds = {{{kinds}}}
+  FailSends = {failsends}
 INVARIANTS TypeOK OneReceiver DeadQueuesEmpty DeliveredOnce {export}
 {view}
 """
 
 
 def gen(wd, name, agents=(0,), maxch=2, maxreg=1, maxslots=1, maxsets=0, maxops=4, maxqueue=2, regionlens=(1,),
-        kinds=("typed",), minops=0, simulate=None, depth=None, export=True, workers=8, tlcseed=None, view=False,
+        kinds=("typed",), failsends=False, minops=0, simulate=None, depth=None, export=True, workers=8, tlcseed=None, view=False,
         timeout=3000):
     cfg = os.path.join(wd, name + ".cfg")
     with open(cfg, "w") as f:
         f.write(CFG.format(agents=", ".join(map(str, agents)), maxch=maxch, maxreg=maxreg, maxslots=maxslots, maxsets=maxsets,
                            maxops=maxops, minops=minops, maxqueue=maxqueue, pick="random" if simulate else "all", regionlens=", ".join(map(str, regionlens)),
-                           kinds=", ".join('"%s"' % k for k in kinds), export="Export" if export else "",
+                           kinds=", ".join('"%s"' % k for k in kinds), failsends="TRUE" if failsends else "FALSE", export="Export" if export else "",
                            view="VIEW View" if view else ""))
     r = run_tlc(os.path.join(SPEC, "MCChannels.tla"), cfg, workers=workers, simulate=simulate, depth=depth,
                 tlcseed=tlcseed, timeout=timeout)
